@@ -8,6 +8,10 @@ pub mod c07;
 pub mod c08;
 pub mod c10;
 pub mod c13;
+pub mod c14;
+pub mod c15;
+pub mod c16;
+pub mod c17;
 pub mod common;
 
 use crate::runner::{Erased, Wrap};
@@ -24,5 +28,9 @@ pub fn all() -> Vec<Box<dyn Erased>> {
         Box::new(Wrap(c08::C08)),
         Box::new(Wrap(c10::C10)),
         Box::new(Wrap(c13::C13)),
+        Box::new(Wrap(c14::C14)),
+        Box::new(Wrap(c15::C15)),
+        Box::new(Wrap(c16::C16)),
+        Box::new(Wrap(c17::C17)),
     ]
 }
